@@ -45,6 +45,9 @@ struct obj {
 	unsigned	gen;
 	int		registered;	/* shadow */
 	int		inited;		/* the library's INIT macro has been applied to this struct */
+	int		never;		/* parked timer (expiry decades away) */
+	int		sweeper_of;	/* 1 + index of the parked timer that this near timer removes when it fires */
+	unsigned	sweeper_gen;
 	int		reaper;
 	int		driver;		/* population driver task */
 	int		burner;		/* task that burns time towards the earliest deadline and re-registers itself this many times */
@@ -135,7 +138,7 @@ static struct {
 	uint64_t cases, cb[K_NKIND], waits, fd_entries_checked, wait_entries_checked, timer_entries_checked,
 		 task_entries_checked, unreg_of_due, handler_changes, reinstall_while_ready, tfd_engaged_cases,
 		 multi_timer_iters, failed_reg, quits, reenters, deadline_checks, rk_nonempty, b_obligations,
-		 nt[8], eintr_seen, sig_raised, ev_posts, raw_posts, actions, frees_in_handler, struct_reuse, timer_rereg_without_init,
+		 nt[8], eintr_seen, sig_raised, ev_posts, raw_posts, actions, frees_in_handler, struct_reuse, timer_rereg_without_init, never_timers,
 		 hyg_checks, stim_applied, max_timers, pop_cases, pop_max;
 } S;
 
@@ -723,6 +726,8 @@ static void fd_set_handler(int o, int b, int v)
 	}
 }
 
+static int picked_never;
+
 static void pick_expiry(struct timespec *ts)
 {
 	int64_t now = vt_now(), e;
@@ -734,8 +739,16 @@ static void pick_expiry(struct timespec *ts)
 	case 2:	e = now; break;							/* now */
 	case 3: case 4:								/* equal to an existing one */
 		e = now + 1000 * (int64_t)rng_n(&R, 3000);
-		if (nreg[K_TIMER])
-			e = ts_ns(&objs[reglist[K_TIMER][rng_n(&R, nreg[K_TIMER])]].expires);
+		if (nreg[K_TIMER]) {
+			int src = reglist[K_TIMER][rng_n(&R, nreg[K_TIMER])];
+			e = ts_ns(&objs[src].expires);
+			if (objs[src].never) {
+				if (pop_mode || winding)
+					e = now + 1000 * (int64_t)rng_n(&R, 3000);
+				else
+					picked_never = 1;	/* a second timer parked at the same far instant: it gets its own companion */
+			}
+		}
 		(void)i;
 		break;
 	case 5: case 6: case 7:
@@ -743,7 +756,14 @@ static void pick_expiry(struct timespec *ts)
 	case 8:
 		e = now + 1000000 * (int64_t)(1 + rng_n(&R, 5)); break;			/* whole ms */
 	default:
-		e = now + VT_NS * (int64_t)(1 + rng_n(&R, 3600)) + rng_n(&R, 1000000000); break;	/* far */
+		e = now + VT_NS * (int64_t)(1 + rng_n(&R, 3600)) + rng_n(&R, 1000000000);	/* far */
+		if (now < 1000000 * VT_NS && !pop_mode && !winding && rng_pct(&R, 15)) {
+			/* a parked "never" timer: 70-150 years out (more than 2^31 seconds away from every other expiry) */
+			e = now + VT_NS * (int64_t)(2209000000LL + rng_n(&R, 2500000000u));
+			S.never_timers++;
+			picked_never = 1;
+		}
+		break;
 	}
 	if (e < 0)
 		e = 0;
@@ -787,6 +807,29 @@ static int timer_register(int reuse_o)
 	iv_timer_register(t);
 	set_registered(o, 1);
 	rh_push(ts_ns(&t->expires), o, objs[o].gen);
+	objs[o].never = 0;
+	if (picked_never) {
+		/* a parked timer never gets to fire: a near companion timer takes it away again (the loop must not be left with it alone) */
+		int o2;
+		picked_never = 0;
+		objs[o].never = 1;
+		o2 = timer_register(-1);
+		if (o2 >= 0 && !objs[o2].never) {
+			struct iv_timer *t2 = objs[o2].p;
+			int64_t e2 = vt_now() + 1000 * (int64_t)(1 + rng_n(&R, 8000));
+			iv_timer_unregister(t2);
+			t2->expires.tv_sec = e2 / VT_NS;
+			t2->expires.tv_nsec = e2 % VT_NS;
+			objs[o2].expires = t2->expires;
+			iv_timer_register(t2);
+			rh_push(ts_ns(&t2->expires), o2, objs[o2].gen);
+			objs[o2].sweeper_of = o + 1;
+			objs[o2].sweeper_gen = objs[o].gen;
+		} else {
+			obj_unreg(o, 1);	/* no room for the companion: do without the parked timer */
+			return -1;
+		}
+	}
 	n = nreg[K_TIMER];
 	(void)i;
 	if (n > case_max_timers)
@@ -911,7 +954,7 @@ static int pick_obj(int kind, int prefer_due)
 		struct obj *ob;
 		i = reglist[kind][(start + q) % nreg[kind]];
 		ob = &objs[i];
-		if (ob->reaper)
+		if (ob->reaper || ob->sweeper_of)
 			continue;
 		if (nc < 64)
 			cand[nc++] = i;
@@ -1519,6 +1562,12 @@ static void timer_cb(void *cookie)
 		}
 	}
 
+	if (ob->sweeper_of) {
+		int tg = ob->sweeper_of - 1;
+		ob->sweeper_of = 0;
+		if (objs[tg].kind == K_TIMER && objs[tg].never && objs[tg].registered && objs[tg].p != NULL && objs[tg].gen == ob->sweeper_gen)
+			obj_unreg(tg, 1);
+	}
 	if (winding) {
 		obj_free(o);
 		goto out;
@@ -1760,6 +1809,12 @@ void hk_wait_enter(struct vt_wait *w)
 	if (iter > 400 + 40 * budget) {
 		/* the loop goes round and round: the spin / starvation rules have reported it, or the case is inconclusive */
 		mon_printf("NOTE case %ld does not terminate (%ld iterations, %ld callbacks)\n", mon_case_id, iter, cb_total);
+		if (getenv("CORE_DEBUG")) {
+			int z;
+			for (z = 0; z < nobjs; z++)
+				if (objs[z].registered)
+					mon_printf("NOTE dbg registered obj %d kind=%d never=%d sweeper_of=%d reaper=%d driver=%d winding=%d pop=%d\n", z, objs[z].kind, objs[z].never, objs[z].sweeper_of, objs[z].reaper, objs[z].driver, winding, pop_mode);
+		}
 		mon_printf("CASE id=%ld runaway=1 viol=%d\n", mon_case_id, mon_viol_case);
 		_exit(mon_viol_case ? 3 : 2);
 	}
@@ -2302,7 +2357,7 @@ int main(int argc, char **argv)
 		   "fd_entries_checked=%llu wait_entries_checked=%llu timer_entries_checked=%llu task_entries_checked=%llu "
 		   "unreg_of_due=%llu handler_changes=%llu reinstall_while_ready=%llu tfd_engaged_cases=%llu multi_timer_iters=%llu "
 		   "failed_reg=%llu quits=%llu reenters=%llu deadline_checks=%llu rk_nonempty=%llu b_obligations=%llu eintr_seen=%llu "
-		   "sig_raised=%llu ev_posts=%llu raw_posts=%llu actions=%llu frees_in_handler=%llu struct_reuse=%llu timer_rereg_without_init=%llu hyg_checks=%llu "
+		   "sig_raised=%llu ev_posts=%llu raw_posts=%llu actions=%llu frees_in_handler=%llu struct_reuse=%llu timer_rereg_without_init=%llu timers_more_than_2e31_s_away=%llu hyg_checks=%llu "
 		   "stim_applied=%llu pop_cases=%llu pop_max=%llu max_timers=%llu quiescences=%llu time_advances=%llu timerfd_fires=%llu injected=%llu successful_calls_leaving_stale_errno=%llu violations=%d\n",
 		   g_method, (unsigned long long)S.cases, (unsigned long long)S.waits,
 		   (unsigned long long)S.cb[K_FD], (unsigned long long)S.cb[K_TIMER], (unsigned long long)S.cb[K_TASK],
@@ -2314,7 +2369,7 @@ int main(int argc, char **argv)
 		   (unsigned long long)S.quits, (unsigned long long)S.reenters, (unsigned long long)S.deadline_checks,
 		   (unsigned long long)S.rk_nonempty, (unsigned long long)S.b_obligations, (unsigned long long)S.eintr_seen,
 		   (unsigned long long)S.sig_raised, (unsigned long long)S.ev_posts, (unsigned long long)S.raw_posts,
-		   (unsigned long long)S.actions, (unsigned long long)S.frees_in_handler, (unsigned long long)S.struct_reuse, (unsigned long long)S.timer_rereg_without_init,
+		   (unsigned long long)S.actions, (unsigned long long)S.frees_in_handler, (unsigned long long)S.struct_reuse, (unsigned long long)S.timer_rereg_without_init, (unsigned long long)S.never_timers,
 		   (unsigned long long)S.hyg_checks, (unsigned long long)S.stim_applied,
 		   (unsigned long long)S.pop_cases, (unsigned long long)S.pop_max, (unsigned long long)S.max_timers,
 		   (unsigned long long)vt_stats.quiescences, (unsigned long long)vt_stats.time_advances,
